@@ -104,6 +104,10 @@ def run(ctx):
     ctx.report.rules[-1].id = "R09.5(R05.2)"
     c05.r05_3(ctx, rep, roles)
     ctx.report.rules[-1].id = "R09.5(R05.3)"
+    # "leaves the live/dead classification invariants intact": exactly-one-set effect of the liveness decision
+    from . import c10
+    c10.r10_3(ctx, rep, roles, P="C09")
+    ctx.report.rules[-1].id = "R09.6(R12.1)"
 
 
 def r09_inventory(ctx, rep, roles, P="C09", ent=None, rule_id="R09.1", extra_table=None, extra_counts=None):
